@@ -69,7 +69,7 @@ def _c35_classes(i, o):
 PROPS = {
     'C34': dict(
         id='C34', cluster='Gas', crate='h-gas', tag=34,
-        n={'quick': 1500, 'thorough': 40000},
+        n={'quick': 1500, 'thorough': 6000},
         theorems=['gas_bounds_all_sequences', 'gas_trace_checker_sound', 'gas_wf_preserved',
                   'gas_invariant_all_sequences', 'exec_ge_min_scaled', 'da_within_scaled_bounds',
                   'da_within_scaled_bounds_record', 'exec_step_bounded', 'da_step_bounded',
